@@ -36,3 +36,17 @@ package dtls
 //@ ensures w-server-name-unaltered: result1 == nil ==> result0.serverName == config.ServerName
 //@ ensures w-replay-window: result1 == nil ==> called("effectiveReplayProtectionWindow") && argInt("effectiveReplayProtectionWindow", 0) == config.ReplayProtectionWindow && result0.replayProtectionWindow == retInt("effectiveReplayProtectionWindow", 0)
 //@ end
+
+// summarised helpers of newConnConfigValues (their results are not what the wiring clauses speak about)
+//@ func parseConnSignatureSchemes
+//@ noinline
+//@ end
+//@ func effectiveProtocolVersionRange
+//@ noinline
+//@ end
+//@ func newConnLogger
+//@ noinline
+//@ end
+//@ func effectiveEllipticCurves
+//@ noinline
+//@ end
